@@ -143,6 +143,111 @@ def struct_metadata(ts):
     return tables.tree_sequence()
 
 
+MD_CLASSES = ["none", "raw-bytes", "json-empty", "json-some", "json-all", "json-restrictive", "json-idmax", "struct",
+              "struct-with-field"]
+MD_KEY = "unsplit_node_id"
+
+
+def set_node_metadata_class(ts, rng, cls):
+    """Node-table metadata: schema class x content class (what decides whether `unsplit_node_id` can be stored)."""
+    tskit = _tskit()
+    tables = ts.dump_tables()
+    n = ts.num_nodes
+    if cls == "none":                      # no schema, every row empty (msprime default)
+        tables.nodes.metadata_schema = tskit.MetadataSchema(None)
+        tables.nodes.packset_metadata([b""] * n)
+    elif cls == "raw-bytes":               # no schema, some raw bytes
+        tables.nodes.metadata_schema = tskit.MetadataSchema(None)
+        tables.nodes.packset_metadata([b"x%d" % i if rng.random() < 0.6 else b"" for i in range(n)])
+    elif cls == "json-empty":              # JSON schema set, nothing packed: the key CAN be stored, all rows empty
+        tables.nodes.metadata_schema = tskit.MetadataSchema.permissive_json()
+        tables.nodes.packset_metadata([b""] * n)
+    elif cls in ("json-some", "json-all"):
+        schema = tskit.MetadataSchema.permissive_json()
+        tables.nodes.metadata_schema = schema
+        p = 0.5 if cls == "json-some" else 1.0
+        tables.nodes.packset_metadata([schema.validate_and_encode_row({"name": f"n{i}", "k": int(rng.integers(0, 9))})
+                                       if rng.random() < p else b"" for i in range(n)])
+    elif cls == "json-restrictive":        # additional properties forbidden: impossible for every node
+        schema = tskit.MetadataSchema({"codec": "json", "type": "object", "properties": {"name": {"type": "string"}},
+                                       "additionalProperties": False})
+        tables.nodes.metadata_schema = schema
+        tables.nodes.packset_metadata([schema.validate_and_encode_row({"name": f"n{i}"}) for i in range(n)])
+    elif cls == "json-idmax":              # the key has a maximum / minimum: possible for some node ids only
+        nonsample = [u for u in range(n) if not ts.node(u).is_sample()] or [0]
+        kmax = int(rng.choice(nonsample))
+        schema = tskit.MetadataSchema({"codec": "json", "type": "object",
+                                       "properties": {MD_KEY: {"type": "integer",
+                                                               str(rng.choice(["maximum", "minimum"])): kmax}}})
+        tables.nodes.metadata_schema = schema
+        tables.nodes.packset_metadata([schema.validate_and_encode_row({"a": i}) if rng.random() < 0.6 else b"" for i in range(n)])
+    elif cls == "struct":                  # struct without the field: impossible
+        schema = tskit.MetadataSchema({"codec": "struct", "type": "object",
+                                       "properties": {"k": {"type": "integer", "binaryFormat": "i"}}})
+        tables.nodes.metadata_schema = schema
+        tables.nodes.packset_metadata([schema.validate_and_encode_row({"k": i}) for i in range(n)])
+    elif cls == "struct-with-field":       # struct that has the field: possible
+        schema = tskit.MetadataSchema({"codec": "struct", "type": "object",
+                                       "properties": {"k": {"type": "integer", "binaryFormat": "i"},
+                                                      MD_KEY: {"type": "integer", "binaryFormat": "i", "default": -1}}})
+        tables.nodes.metadata_schema = schema
+        tables.nodes.packset_metadata([schema.validate_and_encode_row({"k": i}) for i in range(n)])
+    else:
+        raise ValueError(cls)
+    return tables.tree_sequence()
+
+
+def metadata_info(ts):
+    """Per node: the raw row, and what the codec answers when the row is decoded, given the key and re-encoded
+    (None = TypeError / MetadataValidationError, the two exceptions the code treats as 'cannot be stored')."""
+    tskit = _tskit()
+    tb = ts.tables.nodes
+    rows = [bytes(r) for r in tskit.unpack_bytes(tb.metadata, tb.metadata_offset)]
+    schema = tb.metadata_schema
+    enc = []
+    for u in range(ts.num_nodes):
+        try:
+            md = ts.node(u).metadata
+            md[MD_KEY] = int(u)
+            enc.append(bytes(schema.validate_and_encode_row(md)))
+        except (TypeError, tskit.MetadataValidationError):
+            enc.append(None)
+    return dict(rows=rows, enc=enc)
+
+
+def md_tok(b):
+    return "-" if len(b) == 0 else bytes(b).hex()
+
+
+def out_md_tokens(out):
+    tskit = _tskit()
+    tb = out.tables.nodes
+    return [md_tok(bytes(r)) for r in tskit.unpack_bytes(tb.metadata, tb.metadata_offset)]
+
+
+@contextlib.contextmanager
+def capture_warning():
+    """Records whether tsdate.util logged its "Could not set 'unsplit_node_id'" warning."""
+    import logging
+    lg = logging.getLogger("tsdate.util")
+    seen = []
+
+    class H(logging.Handler):
+        def emit(self, record):
+            seen.append(record.getMessage())
+    h = H(level=logging.WARNING)
+    old_level, old_prop = lg.level, lg.propagate
+    lg.addHandler(h)
+    lg.setLevel(logging.WARNING)
+    lg.propagate = False
+    try:
+        yield seen
+    finally:
+        lg.removeHandler(h)
+        lg.setLevel(old_level)
+        lg.propagate = old_prop
+
+
 def handmade(rng):
     """Small explicit table collections that hit the corner cases directly."""
     tskit = _tskit()
@@ -205,9 +310,10 @@ def gen_split_ts(rng):
     r = rng.random()
     if r < 0.12:
         ts, tag = handmade(rng)
-        return ts, dict(fired=[tag])
+        cls = str(rng.choice(MD_CLASSES))
+        return set_node_metadata_class(ts, rng, cls), dict(fired=[tag, "md:" + cls])
     ts, info = gen.gen_ts(rng, historical=0.3, polytomy=0.2, internal_samples=0.15, rootmuts=0.15,
-                          metadata=0.35, permute=0.25, L=float(rng.choice([30, 100, 1000])))
+                          metadata=0.0, permute=0.25, L=float(rng.choice([30, 100, 1000])))
     fired = list(info["fired"])
     if rng.random() < 0.75:
         ts, ivs = cut_intervals(ts, rng, int(rng.integers(1, 7)), narrow=rng.random() < 0.7)
@@ -230,9 +336,9 @@ def gen_split_ts(rng):
         ts, k = add_mutations_anywhere(ts, rng, int(rng.integers(1, 6)))
         if k:
             fired.append("muts_anywhere")
-    if rng.random() < 0.15:
-        ts = struct_metadata(ts)
-        fired.append("struct_metadata")
+    cls = str(rng.choice(MD_CLASSES, p=[0.14, 0.06, 0.2, 0.14, 0.14, 0.08, 0.1, 0.08, 0.06]))
+    ts = set_node_metadata_class(ts, rng, cls)
+    fired.append("md:" + cls)
     if rng.random() < 0.2:
         f = float(rng.choice([0.37, 1.0 / 3.0, 2.5, 1e-3]))
         ts2 = rescale_coords(ts, f)
@@ -348,6 +454,8 @@ def encode(i, c):
         "rem " + " ".join(str(int(x)) for x in c["rem"]),
         "muts " + " ".join(mu)]
         + (["flags " + " ".join(str(int(x)) for x in c["flags"])] if c.get("flags") is not None else [])
+        + (["mdrows " + " ".join(md_tok(b) for b in c["md"]["rows"]),
+            "mdenc " + " ".join("fail" if b is None else md_tok(b) for b in c["md"]["enc"])] if c.get("md") is not None else [])
         + ["end"]) + "\n"
 
 
@@ -357,7 +465,9 @@ def case_replay(c):
                 edges_parent=[int(x) for x in c["ep"]], edges_child=[int(x) for x in c["ec"]],
                 mutations_position=[float(x).hex() for x in c["mpos"]], mutations_node=[int(x) for x in c["mnode"]],
                 insertion=[int(x) for x in c["ins"]], removal=[int(x) for x in c["rem"]],
-                flags=None if c.get("flags") is None else [int(x) for x in c["flags"]])
+                flags=None if c.get("flags") is None else [int(x) for x in c["flags"]],
+                md=None if c.get("md") is None else dict(rows=[b.hex() for b in c["md"]["rows"]],
+                                                         enc=[None if b is None else b.hex() for b in c["md"]["enc"]]))
 
 
 def case_from_replay(d):
@@ -368,7 +478,9 @@ def case_from_replay(d):
                 mpos=np.array([fh(x) for x in d["mutations_position"]], dtype=float),
                 mnode=np.array(d["mutations_node"], dtype=np.int32),
                 ins=np.array(d["insertion"], dtype=np.int32), rem=np.array(d["removal"], dtype=np.int32),
-                flags=None if d.get("flags") is None else np.array(d["flags"], dtype=np.int64))
+                flags=None if d.get("flags") is None else np.array(d["flags"], dtype=np.int64),
+                md=None if d.get("md") is None else dict(rows=[bytes.fromhex(x) for x in d["md"]["rows"]],
+                                                         enc=[None if x is None else bytes.fromhex(x) for x in d["md"]["enc"]]))
 
 
 def run_model(cases):
@@ -384,7 +496,7 @@ def run_model(cases):
         f = ln.split(";")
         ints = lambda s: np.array([int(x) for x in s.split()], dtype=np.int64)  # noqa: E731
         outs[int(f[0])] = dict(parent=ints(f[1]), child=ints(f[2]), order=ints(f[3]), split=ints(f[4]), mnode=ints(f[5]),
-                               flags=ints(f[6]) if len(f) > 6 else ints(""))
+                               flags=ints(f[6]) if len(f) > 6 else ints(""), md=f[7].split() if len(f) > 7 else [])
     return outs
 
 
@@ -404,6 +516,8 @@ def compare(cases, impls):
         diff = [k for k in FIELDS if not np.array_equal(np.asarray(o[k], dtype=np.int64), m[k])]
         if o.get("flags") is not None and not np.array_equal(np.asarray(o["flags"], dtype=np.int64), m["flags"]):
             diff.append("flags")
+        if o.get("md") is not None and list(o["md"]) != list(m["md"]):
+            diff.append("node metadata rows")
         if diff:
             fails.append(Violation("split-model-differs",
                                    f"numba kernels differ from the Lean model in {diff} ({c['kind']} case, "
@@ -529,7 +643,7 @@ def genotypes(ts):
     return out
 
 
-def ts_oracle(ts_in, out, order, split):
+def ts_oracle(ts_in, out, order, split, md=None, warned=None, md_class=None):
     """The statement of C29 on the returned tree sequence. Returns list of (kind, what)."""
     import tsdate
     tskit = _tskit()
@@ -551,25 +665,43 @@ def ts_oracle(ts_in, out, order, split):
         bad.append(("piece-population-or-individual-differs", "population/individual not copied to a piece"))
     if not np.array_equal(out.samples(), ts_in.samples()):
         bad.append(("samples-changed", "sample list changed"))
-    # metadata: unsplit_node_id where possible, everything else kept
-    sch = ts_in.table_metadata_schemas.node
-    try:
-        for v in range(out.num_nodes):
-            md_in = ts_in.node(int(orig[v])).metadata
-            md_out = out.node(v).metadata
-            if isinstance(md_out, dict) and "unsplit_node_id" in md_out and not (isinstance(md_in, dict) and "unsplit_node_id" in md_in):
-                if md_out["unsplit_node_id"] != int(orig[v]) or not was_split[orig[v]]:
-                    bad.append(("unsplit-node-id-wrong", f"node {v}: unsplit_node_id {md_out['unsplit_node_id']} but it comes from {int(orig[v])}"))
+    # metadata: unsplit_node_id on every piece of a split node whose row can take the key ("where possible"),
+    # every other row copied byte for byte; the warning exactly when some split node's row cannot take it
+    if md is not None:
+        try:
+            rows_out = out_md_tokens(out)
+            split_list = [int(u) for u in split]
+            fails = [k for k, u in enumerate(split_list) if md["enc"][u] is None]
+            first_fail = fails[0] if fails else None
+            for v in range(out.num_nodes):
+                u = int(orig[v])
+                if was_split[u] and md["enc"][u] is not None:
+                    md_in, md_out = ts_in.node(u).metadata, out.node(v).metadata
+                    want = dict(md_in)
+                    want[MD_KEY] = u
+                    if md_out != want:
+                        after_failure = first_fail is not None and split_list.index(u) > first_fail
+                        if after_failure and rows_out[v] == md_tok(md["rows"][u]):
+                            bad.append(("unsplit-id-skipped-after-earlier-failure",
+                                        f"node {v} (piece of split node {u}) could store unsplit_node_id but did not get it: an earlier "
+                                        f"split node ({split_list[first_fail]}) could not, and the try/except ends the whole loop"))
+                        elif isinstance(md_out, dict) and MD_KEY in md_out and md_out.get(MD_KEY) != md_in.get(MD_KEY, None):
+                            bad.append(("unsplit-node-id-wrong", f"node {v}: unsplit_node_id {md_out[MD_KEY]} but it is a piece of {u}"))
+                        else:
+                            bad.append(("unsplit-node-id-missing",
+                                        f"node {v} is a piece of split node {u} and its metadata {md_in!r} can take the key "
+                                        f"(schema {md_class}), but the output row is {md_out!r}"))
+                        break
+                elif rows_out[v] != md_tok(md["rows"][u]):
+                    bad.append(("piece-metadata-differs", f"node {v}: metadata row differs from node {u}'s although nothing was to be added"))
                     break
-                md_out = {k: x for k, x in md_out.items() if k != "unsplit_node_id"}
-            elif was_split[orig[v]] and sch.schema is not None and sch.schema.get("codec") == "json" and isinstance(md_in, dict):
-                bad.append(("unsplit-node-id-missing", f"node {v} is a piece of split node {int(orig[v])} but has no unsplit_node_id"))
-                break
-            if md_out != md_in:
-                bad.append(("piece-metadata-differs", f"node {v}: metadata differs from node {int(orig[v])}"))
-                break
-    except Exception as e:  # noqa: BLE001
-        bad.append(("metadata-undecodable", f"{type(e).__name__}: {e}"))
+            if warned is not None:
+                if fails and not warned:
+                    bad.append(("unsplit-warning-missing", "a split node's metadata cannot take unsplit_node_id but no warning was logged"))
+                if not fails and warned:
+                    bad.append(("unsplit-warning-spurious", "warning logged although every split node's metadata can take the key"))
+        except Exception as e:  # noqa: BLE001
+            bad.append(("metadata-undecodable", f"{type(e).__name__}: {e}"))
     # trees
     why = trees_isomorphic(ts_in, out, orig)
     if why:
